@@ -30,6 +30,35 @@ def run(chk):
     else:
         chk.bad('C31-parent', 'cheap_canonicalize_path', 'ParentDir', 'the Component::ParentDir arm (`%s`) never pushes the parent component: `../a` normalises to `a`' % T.show(arm['b']),
                 FILE, arm['l'])
+    # a pop may cancel only a *normal* component: popping a kept `..` (or relying on pop() of an empty path) merges distinct paths
+    chk.rule('C31-pop', 'every PathBuf::pop in the ParentDir arm is reached only when the last accumulated component is Component::Normal '
+                        '(match / if-let / matches! on components().next_back()): a catch-all arm would also pop a previously kept `..`')
+    COMPONENTS = ['Prefix', 'RootDir', 'CurDir', 'ParentDir', 'Normal']
+    for n, ctx in T.walk_ctx(arm['b']):
+        if n in pops:
+            reach = None
+            for c in ctx:
+                if c[0] == 'arm' and ('next_back' in T.show(c[1]['x']) or 'last' in T.show(c[1]['x'])):
+                    m, a = c[1], c[2]
+                    remaining = set(COMPONENTS) | {'None'}
+                    for other in m['arms']:
+                        got = comp_set(other['pat'], COMPONENTS)
+                        if other is a:
+                            reach = remaining & got
+                            break
+                        if 'g' not in other:
+                            remaining -= got
+                elif c[0] == 'if' and c[2] is True and 'Component::Normal' in T.show(c[1]) and ('next_back' in T.show(c[1]) or 'last' in T.show(c[1])):
+                    reach = {'Normal'}
+            if reach is None:
+                if pushes:
+                    chk.lost.append('cheap_canonicalize_path: a pop in the ParentDir arm is guarded in an unrecognised way')
+                # (no push at all is already reported by C31-parent)
+            elif reach <= {'Normal'}:
+                chk.ok('C31-pop', 'pop', sample='pop reached only when the last component is %s' % sorted(reach))
+            else:
+                chk.bad('C31-pop', 'cheap_canonicalize_path', 'pop:' + '+'.join(sorted(reach)), 'the ParentDir arm pops when the last accumulated component is %s: a kept leading `..` '
+                        'is cancelled by the next `..` (`../../m` normalises to `m`)' % ' / '.join(sorted(reach - {'Normal'})), FILE, n['l'])
     # owner
     new = fx.fn('crates/erg_common/pathutil.rs', 'NormalizedPathBuf::new')
     if any((T.cq(c) or '').endswith('cheap_canonicalize_path') for c in T.calls(new['body'])):
@@ -42,3 +71,38 @@ def run(chk):
 
 def m_src(n):
     return n.get('src')
+
+
+def comp_set(p, comps):
+    """set of last-component cases ('None' or a Component variant) an Option<Component> pattern matches"""
+    k = p.get('k')
+    if k == 'Wild' or (k == 'Bind' and 'sub' not in p):
+        return set(comps) | {'None'}
+    if k == 'POr':
+        s = set()
+        for q in p['p']:
+            s |= comp_set(q, comps)
+        return s
+    if k == 'PPath' and p['d'].endswith('::None'):
+        return {'None'}
+    if k == 'PTupleStruct' and p['d'].endswith('::Some') and p['p']:
+        q = p['p'][0]
+        return inner_set(q, comps)
+    return set()
+
+
+def inner_set(q, comps):
+    k = q.get('k')
+    if k == 'Wild' or (k == 'Bind' and 'sub' not in q):
+        return set(comps)
+    if k == 'POr':
+        s = set()
+        for x in q['p']:
+            s |= inner_set(x, comps)
+        return s
+    if k in ('PTupleStruct', 'PPath', 'PStruct'):
+        nm = q['d'].split('::')[-1]
+        return {nm} if nm in comps else set()
+    if k == 'PRef':
+        return inner_set(q['p'], comps)
+    return set()
